@@ -111,6 +111,11 @@ impl<L: Language> RuleRegistration<L> {
     self.rewriters.insert(id, rewriter)
   }
 
+  /// check if util rules used by the local util rules are defined
+  pub(crate) fn verify_local_utils(&self) -> Result<(), crate::RuleSerializeError> {
+    self.local.0.values().try_for_each(|r| r.verify_util())
+  }
+
   pub(crate) fn get_local_util_vars(&self) -> HashSet<&str> {
     let mut ret = HashSet::new();
     let utils = &self.local.0;
